@@ -26,6 +26,8 @@ func init() {
 			"(R20.7) every StackIterator implementation returns from Function() a value that does not alias the iterator (a genuine compiler defect – the multi-listener adapter saw the outermost function for every frame – was found and fixed); (R20.8) the parallel frame caches of the multi-listener adapter are reset together; (R20.6) what a cached compiled module captures of the listeners must be covered by the module identity – on this tree the engines store the listener objects while the identity hashes only their nil-ness: a second CompileModule of the same binary under another listener factory silently uses the first factory's listeners (demonstrated on both engines, recorded as two known findings). " +
 			"NOT decided: the native return-address walk itself, nesting under unwinding, equality of event streams between engines, parameter/result values.",
 		Rules: []core.Rule{
+			{ID: "R20.14", Template: "T-MUSTPASS", Text: "stack-overflow exit path: the Before-trampoline test reads the innermost unwound return address before it is dropped", Min: 1},
+			{ID: "R20.15", Template: "T-SIBLING", Text: "the stack iterator's completeness test compares the bounded unwinder's result with the limit it was given", Min: 1},
 			{ID: "R20.13", Template: "T-OWN", Text: "listener adapters keep no per-call state in the listener object (genuine defect found and fixed: MultiFunctionListenerFactory)", Min: 3},
 			{ID: "R20.1", Template: "T-MUSTPASS", Text: "before at entry; label-derived jump targets are return-block-checked with an after call; emitted returns are covered", Min: 6},
 			{ID: "R20.2", Template: "T-TYPESTATE", Text: "Before ≺ call ≺ After in every Go-side bracket; body runner only via the listener-consulting dispatcher", Min: 7},
@@ -42,6 +44,8 @@ func init() {
 		},
 		Run: runC20,
 		Controls: []core.Control{
+			{Name: "before-trampoline-test-after-drop", File: "internal/engine/wazevo/call_engine.go", Old: "\t\t\t\t\tinBefore := c.parent.parent.parent.isListenerBeforeTrampoline(returnAddrs[0])\n\t\t\t\t\treturnAddrs = returnAddrs[1:]\n\t\t\t\t\tif inBefore && len(returnAddrs) > 0 {", New: "\t\t\t\t\treturnAddrs = returnAddrs[1:]\n\t\t\t\t\tif len(returnAddrs) > 0 && c.parent.parent.parent.isListenerBeforeTrampoline(returnAddrs[0]) {", Rule: "R20.14", Substr: "innermost"},
+			{Name: "unwind-completeness-excludes-seed", File: "internal/engine/wazevo/call_engine.go", Old: "\tif len(si.retAddrs) < limit {\n\t\tlimit = 0\n\t}", New: "\tif len(si.retAddrs)-1 < limit {\n\t\tlimit = 0\n\t}", Rule: "R20.15", Substr: "whole stack"},
 			{Name: "multi-listener-iterator-in-the-listener", File: "experimental/listener.go", Old: "\tstack := stackIterator{base: si}\n\tfor _, lstn := range multi.lstns {\n\t\tstack.index = -1\n\t\tlstn.Before(ctx, mod, def, params, &stack)\n\t}", New: "\tmulti.stack.base = si\n\tfor _, lstn := range multi.lstns {\n\t\tmulti.stack.index = -1\n\t\tlstn.Before(ctx, mod, def, params, &multi.stack)\n\t}", Rule: "R20.13", Substr: "multiFunctionListener", Old2: "type multiFunctionListener struct {\n\tlstns []FunctionListener\n}", New2: "type multiFunctionListener struct {\n\tlstns []FunctionListener\n\tstack stackIterator\n}"},
 			{Name: "after-gets-bottom-of-stack", File: "internal/engine/wazevo/frontend/lower.go", Old: "l.values[tail-c.results():tail]...)", New: "l.values[:c.results()+tail-tail]...)", Rule: "R20.11", Substr: "callListenerAfter"},
 			{Name: "abort-only-when-entry-module-has-listeners", File: "internal/engine/wazevo/call_engine.go", Old: "\t\t\t\tdef, lsn = c.addFrame(builder, retAddr)\n\t\t\t\tif lsn != nil {", New: "\t\t\t\tdef, lsn = c.addFrame(builder, retAddr)\n\t\t\t\tif len(c.parent.parent.listeners) > 0 && lsn != nil {", Rule: "R20.12", Substr: "compiler"},
@@ -54,7 +58,7 @@ func init() {
 			{Name: "br-table-plain-jump", File: "internal/engine/wazevo/frontend/lower.go", Old: "\t\tbuilder.SetCurrentBlock(trampoline)\n\t\tc.insertJumpToBlock(args, targetBlk)\n", New: "\t\tbuilder.SetCurrentBlock(trampoline)\n\t\tbuilder.AllocateInstruction().AsJump(args, targetBlk).Insert(builder)\n", Rule: "R20.1", Substr: "lowerBrTable"},
 			{Name: "return-without-after", File: "internal/engine/wazevo/frontend/lower.go", Old: "\t\tif c.needListener {\n\t\t\tc.callListenerAfter()\n\t\t}\n\n\t\tc.lowerReturn(builder)\n", New: "\t\tc.lowerReturn(builder)\n", Rule: "R20.1", Substr: "Return"},
 			{Name: "no-before-at-entry", File: "internal/engine/wazevo/frontend/lower.go", Old: "\tif c.needListener {\n\t\tc.callListenerBefore()\n\t}\n", New: "", Rule: "R20.1", Substr: "before"},
-			{Name: "host-after-before-call", File: "internal/engine/wazevo/call_engine.go", Old: "\t\t\t// Call into the Go function.\n\t\t\tfunc() {\n\t\t\t\tif snapshotEnabled {\n\t\t\t\t\tdefer snapshotRecoverFn(c)\n\t\t\t\t}\n\t\t\t\tf.Call(ctx, s)\n\t\t\t}()\n\t\t\t// Call Listener.After.\n\t\t\tlistener.After(ctx, callerModule, def, s[:len(def.ResultTypes())])\n", New: "\t\t\tlistener.After(ctx, callerModule, def, s[:len(def.ResultTypes())])\n\t\t\t// Call into the Go function.\n\t\t\tfunc() {\n\t\t\t\tif snapshotEnabled {\n\t\t\t\t\tdefer snapshotRecoverFn(c)\n\t\t\t\t}\n\t\t\t\tf.Call(ctx, s)\n\t\t\t}()\n", Rule: "R20.2", Substr: "ExitCodeCallGoFunctionWithListener"},
+			{Name: "host-after-before-call", File: "internal/engine/wazevo/call_engine.go", Old: "\t\t\t// Call into the Go function.\n\t\t\tfunc() {\n\t\t\t\tif snapshotEnabled {\n\t\t\t\t\tdefer snapshotRecoverFn(c)\n\t\t\t\t}\n\t\t\t\tf.Call(ctx, s)\n\t\t\t}()\n\t\t\tclearUpper32Bits(s, def.ResultTypes())\n\t\t\t// Call Listener.After.\n\t\t\tlistener.After(ctx, callerModule, def, s[:len(def.ResultTypes())])\n", New: "\t\t\tlistener.After(ctx, callerModule, def, s[:len(def.ResultTypes())])\n\t\t\t// Call into the Go function.\n\t\t\tfunc() {\n\t\t\t\tif snapshotEnabled {\n\t\t\t\t\tdefer snapshotRecoverFn(c)\n\t\t\t\t}\n\t\t\t\tf.Call(ctx, s)\n\t\t\t}()\n", Rule: "R20.2", Substr: "ExitCodeCallGoFunctionWithListener"},
 			{Name: "interp-after-conditional", File: "internal/engine/interpreter/interpreter.go", Old: "\tce.callNativeFunc(ctx, m, f)\n\tfnl.After(ctx, m, def, ce.peekValues(typ.ResultNumInUint64))\n", New: "\tce.callNativeFunc(ctx, m, f)\n\tif typ.ResultNumInUint64 > 0 {\n\t\tfnl.After(ctx, m, def, ce.peekValues(typ.ResultNumInUint64))\n\t}\n", Rule: "R20.2", Substr: "callNativeFuncWithListener"},
 			{Name: "interp-bypass-dispatcher", File: "internal/engine/interpreter/interpreter.go", Old: "\t} else if lsn := f.parent.listener; lsn != nil {\n\t\tce.callNativeFuncWithListener(ctx, m, f, lsn)\n\t} else {", New: "\t} else if lsn := f.parent.listener; lsn != nil && len(ce.frames) == 0 {\n\t\tce.callNativeFuncWithListener(ctx, m, f, lsn)\n\t} else {", Rule: "R20.2", Substr: "dispatcher"},
 			{Name: "abort-capped-at-max-frames", File: "internal/engine/interpreter/interpreter.go", Old: "\tfunctionListeners := make([]functionListenerInvocation, 0, 16)\n\n", New: "\tfunctionListeners := make([]functionListenerInvocation, 0, 16)\n\n\tif frameCount > wasmdebug.MaxFrames {\n\t\tframeCount = wasmdebug.MaxFrames\n\t}\n", Rule: "R20.3", Substr: "interpreter"},
@@ -67,6 +71,8 @@ func init() {
 
 func runC20(c *core.Ctx) {
 	c.SSA()
+	checkOverflowUnwindOrder(c)
+	checkUnwindCompleteness(c)
 	checkFrontendListener(c)
 	checkBrackets(c)
 	checkAbortCoverage(c)
